@@ -280,6 +280,11 @@ fn tree_hand() -> Vec<Decl> {
         d("EXTRAordinarilyLONG:FOO", &[], R::Unit, true),
         d("EXTRAordinarilyLONG:BAZ?", &[], R::Hid, true),
         d("SYSTem:LONGmnemonic17:BAR", &[], R::Unit, false),
+        // two optional subsystems with a same-named child whose own children differ
+        d("[SENSe]:FREQuency:RANGe", &[F64], R::Unit, true),
+        d("[SENSe]:FREQuency:RANGe?", &[], R::Hid, true),
+        d("[SOURce]:FREQuency:CW", &[F64], R::Unit, true),
+        d("[SOURce]:FREQuency:CW?", &[], R::Hid, true),
         // a deep chain (eleven levels) with the same leaves at several depths
         d("DEEP:A:B1:X_Y:SUB:LEAF:NUM:STATus:CURRent:VOLTage:FOO", &[], R::Unit, true),
         d("DEEP:A:B1:X_Y:SUB:LEAF:NUM:STATus:CURRent:VOLTage:BAR", &[U8], R::Unit, true),
